@@ -88,10 +88,47 @@ func convPos(p cmd.VerifPos) posT { return posT{p.File, p.Line} }
 
 var watchdog = 10 * time.Second
 
+// guarded runs f under the watchdog; false (and hung set) when f did not
+// come back.
+func guarded(f func()) bool {
+	if hung {
+		return false
+	}
+	done := make(chan struct{})
+	go func() { f(); close(done) }()
+	select {
+	case <-done:
+		return true
+	case <-time.After(watchdog):
+		hung = true
+		return false
+	}
+}
+
 // hung is set when a parse did not come back: its goroutine is still
 // running (and may eat processor and memory), so no further experiment is
 // started; the harness writes out what it has, the hang included.
 var hung bool
+
+var nObserved int
+
+// tick is called before every experiment.  The parser never closes the files
+// it opens (subreader.f is never set): their descriptors are released by
+// finalizers only, so collect regularly.
+func tick() {
+	nObserved++
+	if nObserved%40 == 0 {
+		runtime.GC()
+	}
+}
+
+// releaseDescriptors collects and gives the finalizer goroutine time to run.
+func releaseDescriptors() {
+	for i := 0; i < 3; i++ {
+		runtime.GC()
+		time.Sleep(30 * time.Millisecond)
+	}
+}
 
 func observe(in *input) obsT {
 	type ret struct{ r cmd.VerifC09Result }
@@ -99,6 +136,7 @@ func observe(in *input) obsT {
 	if hung {
 		return obsT{Kind: "skipped"}
 	}
+	tick()
 	for attempt := 0; ; attempt++ {
 		ch := make(chan ret, 1)
 		go func() {
@@ -116,10 +154,9 @@ func observe(in *input) obsT {
 		// experiment itself could not be set up for lack of descriptors,
 		// collect and try again.
 		if r.Phase == "setup" || strings.Contains(r.ErrShort, "too many open files") {
-			runtime.GC()
-			runtime.GC()
-			if r.Phase == "setup" && attempt < 3 {
-				continue
+			releaseDescriptors()
+			if attempt < 3 {
+				continue // with the leaked descriptors released the outcome is the parser's own
 			}
 		}
 		break
@@ -334,8 +371,8 @@ func main() {
 	// A runaway include would otherwise open files up to the (large) system
 	// limit before failing.
 	var rl syscall.Rlimit
-	if syscall.Getrlimit(syscall.RLIMIT_NOFILE, &rl) == nil && rl.Cur > 1024 {
-		rl.Cur = 1024
+	if syscall.Getrlimit(syscall.RLIMIT_NOFILE, &rl) == nil && rl.Cur > 4096 {
+		rl.Cur = 4096
 		_ = syscall.Setrlimit(syscall.RLIMIT_NOFILE, &rl)
 	}
 	priv, err := os.MkdirTemp("", "shk-c09-")
